@@ -31,6 +31,17 @@ var engineAssumptions = []string{
 
 var checks = []Check{
 	{
+		ID: "C19", Title: "hot keys: counters exact for tracked keys and bounded", Level: "model_checking",
+		LevelText: "explicit-state BFS over every Incr/Latch/Free sequence on the real Counter (capacity 0..3, depth 7/9) against a reference map plus structural invariants of the frequency list; DFS over every Collector history (depth 5/6) including every rand outcome of the logarithmic counter and a minute tick at any clock read; every insert sequence into the sorted report; every interleaving (P<=2/3) of writers, collect, reader and Free",
+		Technique: "explicit-state search over operation histories on the real objects + preemption-bounded schedule exploration",
+		Assumptions: engineAssumptions,
+		Jobs: []Job{
+			{Pkg: "proc/redis/hotkey", Scenarios: []string{"C19/counter", "C19/insert"}, Shards: 1, QuickS: 60, ThoroughS: 400},
+			{Pkg: "proc/redis/hotkey", Scenarios: []string{"C19/collector"}, Shards: 16, QuickS: 60, ThoroughS: 400},
+			{Pkg: "proc/redis/hotkey", Scenarios: []string{"C19/concurrent"}, Shards: 8, QuickS: 60, ThoroughS: 400},
+		},
+	},
+	{
 		ID: "C10", Title: "RESP codec: decode and encode are inverse and independent of chunking", Level: "exploration",
 		LevelText: "bounded-exhaustive enumeration: every value of the RESP grammar up to depth 2 over boundary texts/integers, every concatenation of small messages under all chunkings (<= 14 bytes) or every placement of <= 2/3 cuts, six reader buffer sizes, against an independent codec; integer fast paths against strconv on every string over a 7-letter alphabet up to length 7/8 and every i in [-70000,70000]",
 		Technique: "bounded-exhaustive input and chunking enumeration against an independent reference codec",
